@@ -48,8 +48,10 @@ pub enum Ev {
     PDupAttach,
     /// application: sender.on_detach() (waits for / observes the peer's detach; cancelled at its horizon)
     LOnDetachS,
+    /// the peer sends two pre-settled transfers on the link where the library is the receiver
+    PXfer2,
 }
-pub const ALPHABET: [Ev; 25] = [
+pub const ALPHABET: [Ev; 26] = [
     Ev::LAttachS,
     Ev::LSend,
     Ev::LCloseS,
@@ -75,6 +77,7 @@ pub const ALPHABET: [Ev; 25] = [
     Ev::LCloseR,
     Ev::PDupAttach,
     Ev::LOnDetachS,
+    Ev::PXfer2,
 ];
 
 #[derive(Debug, Clone, Default)]
@@ -185,7 +188,7 @@ pub async fn scenario(events: Vec<Ev>) -> Obs {
             return obs;
         }
     };
-    let mut session: Option<SessionHandle<()>> = match scen::begin(&mut c, Session::builder()).await {
+    let mut session: Option<SessionHandle<()>> = match scen::begin(&mut c, Session::builder().incoming_window(4)).await {
         Ok(s) => Some(s),
         Err(e) => {
             obs.machinery = Some(e);
@@ -205,7 +208,10 @@ pub async fn scenario(events: Vec<Ev>) -> Obs {
     // an earlier call on the link (send) has already returned the error carried by the peer's detach
     let mut peer_detach_error_delivered = false;
     let mut sent_msgs = 0usize;
+    let mut peer_xfers = 0u32;
     let mut call_results: Vec<String> = vec![];
+    // detached handles stay alive to the end of the history: what detach() did not send must not be supplied by a drop
+    let mut kept: Vec<fe2o3_amqp::link::sender::DetachedSender> = vec![];
     obs.state_keys.push(h64(&0u8));
     for (i, ev) in events.iter().enumerate() {
         let sess_alive = session.is_some() && !session_over;
@@ -224,6 +230,7 @@ pub async fn scenario(events: Vec<Ev>) -> Obs {
             Ev::PWithholdEnd => c.peer.auto.end && peer_ended.is_none(),
             Ev::PRefuseAttach => !refuse_next_attach && peer_ended.is_none() && !session_over,
             Ev::PTransferUnattached => peer_ended.is_none() && !session_over,
+            Ev::PXfer2 => rcv_handle.is_some() && peer_ended.is_none() && !session_over && peer_xfers < 20,
             Ev::PDupAttach => snd_handle.is_some() && peer_detached_s.is_none() && peer_ended.is_none() && !session_over,
         };
         if !enabled {
@@ -394,7 +401,19 @@ pub async fn scenario(events: Vec<Ev>) -> Obs {
                 let (res, which): (Option<Result<(), DetachError>>, &str) = match ev {
                     Ev::LDetachS => {
                         let s = sender.take().unwrap();
-                        (drive(&mut c.peer, s.detach(), h).await.map(|r| r.map(|_| ()).map_err(|(_, e)| e)), "detach")
+                        (
+                            drive(&mut c.peer, s.detach(), h).await.map(|r| match r {
+                                Ok(d) => {
+                                    kept.push(d);
+                                    Ok(())
+                                }
+                                Err((d, e)) => {
+                                    kept.push(d);
+                                    Err(e)
+                                }
+                            }),
+                            "detach",
+                        )
                     }
                     Ev::LCloseS => {
                         let s = sender.take().unwrap();
@@ -562,6 +581,28 @@ pub async fn scenario(events: Vec<Ev>) -> Obs {
                 };
                 c.peer.send(0, Performative::Attach(aa));
             }
+            Ev::PXfer2 => {
+                // (the peer numbers its handles like the library here; the link is still attached from the peer's
+                // side even if the library's end is already on its way)
+                let our = rcv_handle.unwrap_or(1);
+                for _ in 0..2 {
+                    let t = Transfer {
+                        handle: Handle(our),
+                        delivery_id: Some(peer_xfers),
+                        delivery_tag: Some(serde_bytes::ByteBuf::from(peer_xfers.to_be_bytes().to_vec())),
+                        message_format: Some(0),
+                        settled: Some(true),
+                        more: false,
+                        rcv_settle_mode: None,
+                        state: None,
+                        resume: false,
+                        aborted: false,
+                        batchable: false,
+                    };
+                    c.peer.send_perf(0, Performative::Transfer(t), &[0x00, 0x53, 0x77, 0x40]);
+                    peer_xfers += 1;
+                }
+            }
             Ev::PTransferUnattached => {
                 let t = Transfer {
                     handle: Handle(77),
@@ -668,6 +709,7 @@ pub async fn scenario(events: Vec<Ev>) -> Obs {
     obs.fails.dedup();
     obs.trace = trace_to_strings(&c.peer.trace);
     obs.trace.push(format!("call results: {:?}", call_results));
+    drop(kept);
     drop(sender);
     drop(receiver);
     drop(session);
